@@ -327,6 +327,12 @@ fn cmd_run(args: &[String]) -> i32 {
         preempt += o.log.preemptions;
         stall_windows += o.log.stall_windows;
         prio_changes += o.log.priority_changes;
+        if o.log.starve_victims > 0 {
+            *probes.entry("starve_victims_taken".to_string()).or_insert(0) += o.log.starve_victims;
+        }
+        if o.log.starve_forced_steps > 0 {
+            *probes.entry("starve_runs_where_victim_ran_only_when_all_else_blocked".to_string()).or_insert(0) += 1;
+        }
         max_tasks = max_tasks.max(o.log.max_task + 1);
         merge_stats(&mut stats, &o.stats);
         for (k, v) in &o.probes {
